@@ -1,48 +1,85 @@
 """C13 Alternates — same-base provenance (FLOW), cycle check dominates following (DOM)."""
+import re
 from gx.flow import Flow
 
 TECHNIQUE = "provenance rule (the base a relative entry is joined onto must be the directory whose alternates file was read) and guard cut-set for the cycle test"
 EXPLANATION = ("In gix_odb::alternate::resolve: the site that gives a parsed alternates entry its base (Path::join(base, entry), or realpath_opts(entry, base) on an entry not joined before) must take, as base, the "
                "same binding as the directory whose info/alternates file was read in that iteration; pushing a directory onto the work list is cut "
                "off from entry once the `not yet seen` edge of seen.contains(canonical) is removed, the canonical path tested is the realpath of "
-               "the joined path, and the cycle branch builds Error::Cycle. Git's consultation order and quoting are not decided.")
+               "the joined path, and the cycle branch builds Error::Cycle. Siblings keep file order (no forward push onto a popped work list), Error::Cycle only behind a membership test on a collection that shrinks (the ancestor chain), "
+               "empty unquoted entries are skipped, the '#' test is applied to the raw line. Quoting fallbacks and git's depth limit are not decided.")
 
 
 def run(db, chk):
+    order_and_dedup_rules(db, chk)
     f = db.one(r"^gix_odb::alternate::resolve$")
     fl = Flow(f)
     joins = f.calls_to(r"std::path::Path::join$")
     reads = f.calls_to(r"std::fs::read$")
     parse = f.calls_to(r"alternate::parse::content$")
-    chk.floor("fs::read of the alternates file", len(reads), 1)
-    chk.floor("parse::content call", len(parse), 1)
-    # the directory the file was read from
-    read_bases = set()
-    for r in reads:
-        for j in joins:
-            if fl.derives_from_call(r.args[0], r"Path::join$"):
-                pass
-        read_bases |= {x[1] for x in fl.roots(r.args[0]) if x[0] in ("var", "arg")}
-    # sites that give a parsed (possibly relative) entry its base: Path::join(base, entry), or realpath_opts(entry, base) on an entry not joined before
-    sites = [(j, j.args[0], "join") for j in joins if fl.derives_from_call(j.args[1], r"alternate::parse::content$")]
-    for c in f.calls_to(r"realpath_opts$"):
-        ejb = {j.block for j, _, _ in sites}
-        via = {r[2] for r in fl.roots(c.args[0], stop_named=False, stop_calls=r"Path::join$", sites=True) if r[0] == "call" and r[1].endswith("Path::join")}
-        if fl.derives_from_call(c.args[0], r"alternate::parse::content$") and not (via & ejb):
-            sites.append((c, c.args[1], "realpath_opts"))
-    chk.floor("sites resolving a parsed entry against a base directory", len(sites), 1)
-    for j, base_op, how in sites:
-        base = {x[1] for x in fl.roots(base_op) if x[0] in ("var", "arg")}
-        names = sorted((f.local_name(b) or "arg%d" % b) for b in base)
-        rnames = sorted((f.local_name(b) or "arg%d" % b) for b in read_bases)
-        chk.ob("relative-entry-joined-on-its-own-directory", "resolve: %s(%s, entry)" % (how, ",".join(names)), bool(base) and base <= read_bases,
-               "entries are resolved against %s but the alternates file was read from %s" % (names, rnames), j.where(), key="same-base|resolve")
-        chk.sample({"site": how, "base": names, "read_from": rnames})
+    # helper form: a nested function that reads `<its parameter>/info/alternates` and returns the parsed entries
+    helpers = []
+    for g in db.by_crate["gix_odb"]:
+        if g.name.startswith("gix_odb::alternate::resolve::") and g.kind not in ("promoted", "closure"):
+            gfl = Flow(g)
+            rd = g.calls_to(r"std::fs::read$")
+            if rd and g.calls_to(r"alternate::parse::content$") and all(any(x[0] == "arg" and x[1] == 1 for x in gfl.roots(r_.args[0], stop_named=False)) for r_ in rd):
+                helpers.append(g)
+    chk.floor("fs::read of the alternates file (inline or in a helper taking the directory)", len(reads) + len(helpers), 1)
+    chk.floor("parse::content call", len(parse) + len(helpers), 1)
+    if helpers and not reads:
+        hre = "|".join(re.escape(h.name) + "$" for h in helpers)
+        # every record that pairs entries with a directory is built from ONE binding: entries = helper(X), dir = X
+        recs = [(bi, rv, ln) for bi, si, pl, rv, ln, mc in f.assigns() if rv[0] == "agg" and rv[1] == "adt" and any(fl.derives_from_call(op, hre) for op in rv[4] if "p" in op)]
+        chk.floor("records pairing parsed entries with their directory", len(recs), 1)
+        for bi, rv, ln in recs:
+            ent = [op for op in rv[4] if "p" in op and fl.derives_from_call(op, hre)]
+            src = set()
+            for c in f.calls():
+                if c.is_(hre) and any(r[0] == "call" and len(r) > 2 and r[2] == c.block for op in ent for r in fl.roots(op, stop_named=False, sites=True)):
+                    src |= {x[1] for x in fl.roots(c.args[0]) if x[0] in ("var", "arg")}
+            others = set()
+            for op in rv[4]:
+                if "p" in op and op not in ent:
+                    others |= {x[1] for x in fl.roots(op) if x[0] in ("var", "arg")}
+            names = sorted((f.local_name(b) or "arg%d" % b) for b in src)
+            chk.ob("relative-entry-joined-on-its-own-directory", "resolve: record@%d pairs entries of %s with that directory" % (ln, ",".join(names)), bool(src) and bool(src & others),
+                   "the entries read from %s are stored next to a different directory" % names, "%s:%d" % (f.file, ln), key="same-base|record")
+        # the join takes base and entry from the same record
+        ejoins = [j_ for j_ in joins if any(r[0] == "call" and r[1].endswith("::next") for r in fl.roots(j_.args[1], stop_named=False))]
+        chk.floor("sites resolving a parsed entry against a base directory", len(ejoins), 1)
+        for j_ in ejoins:
+            def rec_sites(op):
+                return {(r[1], r[2]) for r in fl.roots(op, stop_named=False, sites=True) if r[0] == "call" and re.search(r"::(last_mut|last|first|first_mut|get|get_mut|pop|next|index|index_mut)$", r[1]) and not r[1].endswith("Iterator::next")} - \
+                       {(r[1], r[2]) for r in fl.roots(op, stop_named=False, sites=True) if r[0] == "call" and re.search(r"IntoIter<.*>::next$|Iterator>::next$", r[1])}
+            b_, e_ = rec_sites(j_.args[0]), rec_sites(j_.args[1])
+            chk.ob("relative-entry-joined-on-its-own-directory", "resolve: join(record.dir, record.entries.next())", bool(b_ & e_),
+                   "base and entry of the join come from different records: %s vs %s" % (sorted(b_), sorted(e_)), j_.where(), key="same-base|resolve")
+    else:
+        read_bases = set()
+        for r in reads:
+            read_bases |= {x[1] for x in fl.roots(r.args[0]) if x[0] in ("var", "arg")}
+        # sites that give a parsed (possibly relative) entry its base: Path::join(base, entry), or realpath_opts(entry, base) on an entry not joined before
+        sites = [(j, j.args[0], "join") for j in joins if fl.derives_from_call(j.args[1], r"alternate::parse::content$")]
+        for c in f.calls_to(r"realpath_opts$"):
+            ejb = {j.block for j, _, _ in sites}
+            via = {r[2] for r in fl.roots(c.args[0], stop_named=False, stop_calls=r"Path::join$", sites=True) if r[0] == "call" and r[1].endswith("Path::join")}
+            if fl.derives_from_call(c.args[0], r"alternate::parse::content$") and not (via & ejb):
+                sites.append((c, c.args[1], "realpath_opts"))
+        chk.floor("sites resolving a parsed entry against a base directory", len(sites), 1)
+        for j, base_op, how in sites:
+            base = {x[1] for x in fl.roots(base_op) if x[0] in ("var", "arg")}
+            names = sorted((f.local_name(b) or "arg%d" % b) for b in base)
+            rnames = sorted((f.local_name(b) or "arg%d" % b) for b in read_bases)
+            chk.ob("relative-entry-joined-on-its-own-directory", "resolve: %s(%s, entry)" % (how, ",".join(names)), bool(base) and base <= read_bases,
+                   "entries are resolved against %s but the alternates file was read from %s" % (names, rnames), j.where(), key="same-base|resolve")
+            chk.sample({"site": how, "base": names, "read_from": rnames})
     # cycle detection
     contains = [c for c in f.calls() if c.is_(r"::contains$")]
-    pushes = [c for c in f.calls_to(r"Vec::<T, A>::push$|Vec::<T>::push$") if any(x[0] == "var" and f.local_name(x[1]) == "dirs" for x in fl.roots(c.args[0]))]
+    popped = {x[1] for c in f.calls_to(r"Vec::<T, A>::pop$|Vec::<T>::pop$") for x in fl.roots(c.args[0]) if x[0] == "var"}
+    pushes = [c for c in f.calls_to(r"Vec::<T, A>::push$|Vec::<T>::push$") if any(x[0] == "var" and x[1] in popped for x in fl.roots(c.args[0]))]
     chk.floor("seen.contains", len(contains), 1)
-    chk.floor("dirs.push", len(pushes), 1)
+    chk.floor("pushes onto the work list (the vector that is popped)", len(pushes), 1)
     notseen = set()
     for c in contains:
         e = fl.result_edges(c)
@@ -52,3 +89,71 @@ def run(db, chk):
     chk.ob("cycle-test-dominates-follow", "resolve", bool(notseen) and fl.cut_off([p.block for p in pushes], notseen), "a directory can be queued without passing the seen-check", pushes[0].where() if pushes else "", key="cycle-dominates")
     cyc = [bi for bi, si, pl, rv, ln, mc in f.assigns() if rv[0] == "agg" and rv[3] == "Cycle"]
     chk.ob("cycle-reported", "resolve", bool(cyc), "Error::Cycle must be constructed", "%s:%d" % (f.file, f.line), key="cycle-reported")
+
+
+def order_and_dedup_rules(db, chk):
+    """further structural clauses of `the same object directories git consults, in git's order`:
+      (O) siblings keep the order of the alternates file: entries of one file are not pushed, in a forward loop, onto a worklist that is consumed
+          with pop() (that reverses them) - unless the loop iterates the entries in reverse;
+      (D) a directory reachable twice without a cycle is consulted once and is not an error: Error::Cycle is only built behind a membership test on
+          a collection that also shrinks in this function (the chain of ancestors), not on a grow-only set of everything seen;
+      (E) an entry that unquotes to the empty path is skipped (git does), i.e. the parser tests emptiness of a value that went through the unquoting;
+      (H) only a raw leading '#' makes a comment: the '#' test is applied to the raw line, never to an unquoted value (`"#pool"` is a directory)."""
+    import re
+    f = db.one(r"^gix_odb::alternate::resolve$")
+    fl = Flow(f)
+    fam = [f] + [g for g in db.closures_of(f) if g.kind == "closure"] + [g for g in db.by_crate["gix_odb"] if g.name.startswith("gix_odb::alternate::resolve::") and g.kind not in ("promoted", "closure")]
+    # (O)
+    pops = {}
+    for c in f.calls_to(r"Vec::<T, A>::pop$|Vec::<T>::pop$|VecDeque::<T, A>::pop_back$"):
+        for r in fl.roots(c.args[0]):
+            if r[0] == "var":
+                pops[r[1]] = c
+    bad_o = []
+    n_loops = 0
+    for l in f.loops():
+        nexts = [c for c in f.calls() if c.block in l["body"] and c.is_(r"Iterator>?::next$|::next$") and any(m.startswith("d:ForLoop") for m in c.macros)
+                 and fl.derives_from_call(c.args[0], r"alternate::parse::content$")]
+        if not nexts or not any(c.block == l["header"] or f.dominates(c.block, b_) for c in nexts for b_ in [l["header"]]) and False:
+            continue
+        if not nexts:
+            continue
+        n_loops += 1
+        reversed_ = any(fl.derives_from_call(c.args[0], r"Iterator>?::rev$|::rev$") for c in nexts)
+        for c in f.calls_to(r"Vec::<T, A>::push$|Vec::<T>::push$"):
+            if c.block in l["body"]:
+                for r in fl.roots(c.args[0]):
+                    if r[0] == "var" and r[1] in pops and not reversed_:
+                        bad_o.append((c, f.local_name(r[1])))
+    chk.ob("siblings-keep-file-order", "alternate::resolve", not bad_o,
+           "the entries of one alternates file are pushed in file order onto `%s`, which is consumed with pop(): siblings are consulted in reverse order (git: a, a1, b, c; here: c, b, a, a1)" % (bad_o[0][1] if bad_o else ""),
+           bad_o[0][0].where() if bad_o else "", key="alternates-order|resolve")
+    # (D)
+    cyc = [(g, bi) for g in fam for bi, si, pl, rv, ln, mc in g.assigns() if rv[0] == "agg" and rv[3] == "Cycle"]
+    chk.floor("alternate::resolve: Error::Cycle construction", len(cyc), 1)
+    for g, cb in cyc:
+        gfl = Flow(g)
+        tests = [c for c in g.calls() if c.is_(r"::contains$|Iterator>?::any$|::any$") and c.args]
+        ok = False
+        for t in tests:
+            e = gfl.result_edges(t)
+            if not e["good"] or not gfl.cut_off([cb], e["good"]):
+                continue
+            vars_ = {r[1] for r in gfl.roots(t.args[0]) if r[0] == "var"} | {r[1] for r in gfl.roots(t.args[0], stop_named=False) if r[0] == "var"}
+            shrinks = [c for c in g.calls() if c.is_(r"::(pop|truncate|remove|pop_back)$") and c.args and ({r[1] for r in gfl.roots(c.args[0]) if r[0] == "var"} & vars_)]
+            if shrinks:
+                ok = True
+        chk.ob("cycle-means-ancestor", "alternate::resolve", ok,
+               "Error::Cycle is raised for any directory seen before (the tested collection only grows): a directory reachable twice without a cycle (top -> x, y; x -> d; y -> d) makes the whole object database fail to open, git consults it once",
+               "%s:%d" % (g.file, g.line), key="alternates-diamond|resolve")
+    # (E) and (H)
+    pc = db.one(r"^gix_odb::alternate::parse::content$")
+    pfl = Flow(pc)
+    empt = [c for c in pc.calls_to(r"::is_empty$") if c.args and pfl.derives_from_call(c.args[0], r"ansi_c::undo$")]
+    chk.ob("empty-unquoted-entry-skipped", "alternate::parse::content", bool(empt), "no emptiness test on an unquoted entry: an empty quoted entry yields the directory itself and a bogus cycle error", "%s:%d" % (pc.file, pc.line), key="alternates-empty|content")
+    hashes = [c for c in pc.calls_to(r"::starts_with$") if len(c.args) > 1 and any(r[0] == "const" and r[1] == b"#" for r in pfl.roots(c.args[1], stop_named=False)) or
+              (len(c.args) > 1 and c.args[1].get("bytes") == "23")]
+    chk.floor("alternate::parse::content: comment test", len(hashes), 1)
+    for c in hashes:
+        chk.ob("comment-test-on-raw-line", "alternate::parse::content starts_with('#')@%d" % c.line, not pfl.derives_from_call(c.args[0], r"ansi_c::undo$"),
+               "the '#' comment test is applied to an unquoted value: a quoted entry #pool is a directory for git, here it is dropped as a comment", c.where(), key="alternates-comment|content")
